@@ -22,6 +22,7 @@ RULE = ("One evaluation = one seeded two-client execution (Deferred and "
         "Non-trivial: both sides reached 'verifier' and (a fault "
         "fired or an extra get_*() was issued before its event). Distinct: "
         "event-log digests among non-trivial runs.")
+RULE += (' The i-th message event must carry the i-th message the peer sent (prefix oracle).')
 LEVEL_TEXT = ("Seeded exploration; per-side automaton code<key<verifier<"
               "(versions|message)*<closed with once-only counters, versions-"
               "before-messages only in order-preserving-server configurations; "
